@@ -77,7 +77,20 @@ Definition blocks (l : loop) (ready : list nat) : bool :=
 (* ---- the checker evaluated on the generated IR ---- *)
 Definition listens (l : loop) : bool := existsb is_shutdown (cases l).
 
-Definition case_ok (c : scase) : bool := if is_shutdown c then leaves (tm c) else true.
+(* a case on the channel of a timer that is made once (time.NewTimer) and never re-armed inside the
+   loop can be taken once only: a periodic service built on it runs a single period. The translator
+   marks such a channel with the prefix "oneshot:" *)
+Fixpoint starts_with (p s : list ascii) : bool :=
+  match p, s with
+  | [], _ => true
+  | a :: p', b :: s' => Ascii.eqb a b && starts_with p' s'
+  | _ :: _, [] => false
+  end.
+Definition is_oneshot (c : scase) : bool :=
+  starts_with (list_ascii_of_string "oneshot:") (list_ascii_of_string (chan c)).
+
+Definition case_ok (c : scase) : bool :=
+  negb (is_oneshot c) && (if is_shutdown c then leaves (tm c) else true).
 
 Definition loop_ok (l : loop) : bool :=
   negb (has_default l) &&
